@@ -136,8 +136,8 @@ func checkDiagnostics(res *report.Result, pc *PertCase) {
 						okC = true
 					}
 				}
-				if pt.ID == "P13a" || pt.ID == "P13b" || pt.ID == "P14a" || pt.ID == "P14b" {
-					okC = true // raw signatures: parameter positions are not recorded
+				if pt.ID == "P13a" || pt.ID == "P13b" || pt.ID == "P14a" || pt.ID == "P14b" || pt.ID == "PX5" {
+					okC = true // raw / multi-line signatures: parameter positions are not recorded
 				}
 			}
 			if !okC {
